@@ -475,10 +475,14 @@ def translate_sort_table(ck):
 
 
 # ------------------------------------------------------------------------------------------ running the harness
-def run_fresh(ck, binpath, specs, nproc, timeout=600):
-    """analyse every spec in `nproc` FRESH processes (each process = new hash seeds); returns per process the list
-    of dumps (one per spec) or None when the process failed"""
+def run_fresh(ck, binpath, specs, nproc, timeout=900):
+    """analyse every spec in `nproc` FRESH processes (each process = new hash seeds); returns per process
+    ("OK", [dump per spec]) or ("ERR", text).  To keep memory flat every run of a dump is reduced to
+    {"sha": hash of its canonical form, "orders": …, "full": the run itself the first time this (spec, sha) is seen}"""
+    import threading
     payload = "\n".join(json.dumps(s) for s in specs) + "\n"
+    first = {}
+    lock = threading.Lock()
 
     def one(_):
         rc, out, err = ck.run_bin(binpath, ["one"], input=payload, timeout=timeout)
@@ -487,10 +491,21 @@ def run_fresh(ck, binpath, specs, nproc, timeout=600):
         lines = [l for l in out.splitlines() if l.strip()]
         if len(lines) != len(specs):
             return ("ERR", "expected %d dumps, got %d: %s" % (len(specs), len(lines), err[-800:]))
+        dumps = []
         try:
-            return ("OK", [json.loads(l) for l in lines])
-        except ValueError as ex:
+            for i, l in enumerate(lines):
+                runs = []
+                for r in json.loads(l)["runs"]:
+                    sha = hashlib.sha1(canon(r).encode()).hexdigest()
+                    with lock:
+                        keep = (i, sha) not in first
+                        if keep:
+                            first[(i, sha)] = True
+                    runs.append({"sha": sha, "orders": r.get("orders"), "panic": "panic" in r, "full": r if keep else None})
+                dumps.append({"runs": runs})
+        except (ValueError, KeyError) as ex:
             return ("ERR", "unparsable dump: %s" % ex)
+        return ("OK", dumps)
     with ThreadPoolExecutor(max_workers=min(nproc, max(2, NCPU))) as ex:
         return list(ex.map(one, range(nproc)))
 
@@ -510,7 +525,8 @@ def differing(ck, binpath, spec, nproc=8):
         if st != "OK":
             continue
         for r in v[0]["runs"]:
-            seen.setdefault(canon(r), r)
+            if r["full"] is not None:
+                seen.setdefault(r["sha"], r["full"])
     ks = list(seen)
     if len(ks) > 1:
         return True, seen[ks[0]], seen[ks[1]]
@@ -776,15 +792,18 @@ def search(ck, binpath, nws, nproc, nstd):
         for i, spec in enumerate(group):
             seen = {}
             nruns = 0
+            panicked = False
             for st, dumps in res:
                 for r in dumps[i]["runs"]:
                     nruns += 1
-                    seen.setdefault(canon(r), r)
+                    panicked = panicked or r["panic"]
+                    if r["full"] is not None:
+                        seen.setdefault(r["sha"], r["full"])
             nontriv = len(spec["files"]) >= 2
             for k in spec.get("kind", "corpus").split("+"):
                 kinds[k] = kinds.get(k, 0) + 1
             ck.add_counts(nruns, [("ws", json.dumps(spec["files"]), spec.get("mode"), spec.get("std", False))] if nontriv else [])
-            if any("panic" in json.loads(k) for k in seen):
+            if panicked:
                 ck.violation("analysis-panic", "analysis panicked on workspace %s" % spec.get("id"), {"spec": spec})
                 continue
             if len(seen) > 1:
@@ -927,14 +946,18 @@ def main(argv):
         ck.coq_gates(["C11"], THEOREMS + [("pipeline_deterministic", "theorem"), ("best_order_example", "example"), ("grouping_example", "example")], "EV.C11.Props")
     if ck.broken:
         ck.deep = True
+    drv = []
     if bins:
-        drv = search(ck, bins["c11"], ck.scale(120, 1500), ck.scale(12, 24), ck.scale(4, 16))
+        drv = search(ck, bins["c11"], ck.scale(120, 600), ck.scale(12, 16), ck.scale(4, 12))
         ck.log("search done")
-        if checker:
-            checker_processes(ck, checker, ck.scale(5, 40), ck.scale(6, 12))
-            ck.log("emmylua_check processes done")
+    if checker:
+        # independent of the harness: still runs when the harness no longer builds against the edited tree
+        checker_processes(ck, checker, ck.scale(5, 16), ck.scale(6, 8))
+        ck.log("emmylua_check processes done")
+    if bins:
         if ok_corr:
-            correspondence(ck, bins["c11"], ck.scale(300, 3000), ck.scale(6, 12), drv)
+            correspondence(ck, bins["c11"], ck.scale(200, 2000), ck.scale(6, 10), drv)
+            ck.log("correspondence done")
     ck.finish(
         trusted_base=TRUSTED,
         rule="search: corpus + generated workspaces of 3-8 files built from 14 snippet classes (conflicting cross-file globals, global "
